@@ -255,7 +255,7 @@ pub fn record<T: Serialize>(v: &T) -> (Vec<u8>, Marks) {
 /// every enum with at most 12 variants (the app's Event has 12 deserializable variants).
 pub const TAG_MAX: u32 = 13;
 
-pub const BIN_ALPHABET: &str = "for a valid encoding e (n bytes): every proper prefix e[..k], k=0..n-1 (k=0 is the empty string); e with each single bit flipped (8n); every 8-byte length field (value v) replaced by {0, v-1, v+1, 2^32, 2^63, 2^64-1}; every 4-byte enum tag replaced by every value of 0..=13 other than its own and by 2^32-1 (covers #variants, #variants+1 and every other in-range tag = well-formed answer of the wrong kind); every 1-byte Option tag replaced by {2, 255}; e followed by 1, 8, 64 bytes of 0x00 and of 0xff";
+pub const BIN_ALPHABET: &str = "for a valid encoding e (n bytes): every proper prefix e[..k], k=0..n-1 (k=0 is the empty string); e with each single bit flipped (8n); every 8-byte length field (value v) replaced by {0, v-1, v+1, 2^28, 2^32, 2^40, 2^56, 2^63, 2^64-1} (2^28: fits in memory but is far above the 16 MiB bound; 2^32..2^56: neither overflows capacity nor fits in memory; 2^63 and up: capacity overflow); every 4-byte enum tag replaced by every value of 0..=13 other than its own and by 2^32-1 (covers #variants, #variants+1 and every other in-range tag = well-formed answer of the wrong kind); every 1-byte Option tag replaced by {2, 255}; e followed by 1, 8, 64 bytes of 0x00 and of 0xff";
 
 pub fn bin_faults(e: &[u8], m: &Marks) -> Vec<Vec<u8>> {
     let mut set: BTreeSet<Vec<u8>> = BTreeSet::new();
@@ -269,7 +269,7 @@ pub fn bin_faults(e: &[u8], m: &Marks) -> Vec<Vec<u8>> {
     }
     for &o in &m.lens {
         let v = u64::from_le_bytes(e[o..o + 8].try_into().unwrap());
-        for r in [0, v.wrapping_sub(1), v.wrapping_add(1), 1 << 32, 1 << 63, u64::MAX] {
+        for r in [0, v.wrapping_sub(1), v.wrapping_add(1), 1 << 28, 1 << 32, 1 << 40, 1 << 56, 1 << 63, u64::MAX] {
             let mut f = e.to_vec();
             f[o..o + 8].copy_from_slice(&r.to_le_bytes());
             set.insert(f);
